@@ -372,6 +372,35 @@ func (rb *replayBuilder) build(dirs map[string]bool) {
 		os.WriteFile(real, data, 0o644)
 		repl[virt] = real
 	}
+	// harnesses of randomised operations: replay math/rand outcomes from the tape
+	usesRand := false
+	for _, data := range overlay {
+		if strings.Contains(string(data), "verif-uses-rand") {
+			usesRand = true
+		}
+	}
+	if usesRand {
+		goroot := strings.TrimSpace(goEnv("GOROOT"))
+		randSrc := filepath.Join(goroot, "src", "math", "rand", "rand.go")
+		if src, err := os.ReadFile(randSrc); err == nil {
+			out := filepath.Join(bdir, "rand_overlay.go.txt")
+			os.WriteFile(out, []byte(patchRand(string(src))), 0o644)
+			repl[randSrc] = out
+		}
+		// per-package hook installation
+		for virt := range overlay {
+			if strings.HasSuffix(virt, "zz_verif_rt.go") {
+				d := filepath.Dir(virt)
+				name := pkgNameOf(string(overlay[virt]))
+				hook := "//go:build verif\n\npackage " + name + "\n\nimport \"math/rand\"\n\nfunc init() { rand.VerifNext = vfNextRand }\n"
+				rel, _ := filepath.Rel(*repo, filepath.Join(d, "zz_verif_randhook_test.go"))
+				real := filepath.Join(bdir, "src", rel)
+				os.MkdirAll(filepath.Dir(real), 0o755)
+				os.WriteFile(real, []byte(hook), 0o644)
+				repl[filepath.Join(d, "zz_verif_randhook_test.go")] = real
+			}
+		}
+	}
 	ov, _ := json.Marshal(map[string]interface{}{"Replace": repl})
 	ovPath := filepath.Join(bdir, "overlay.json")
 	os.WriteFile(ovPath, ov, 0o644)
@@ -397,6 +426,48 @@ func (rb *replayBuilder) build(dirs map[string]bool) {
 	wg.Wait()
 }
 
+func goEnv(k string) string {
+	out, _ := exec.Command("go", "env", k).Output()
+	return string(out)
+}
+
+func pkgNameOf(src string) string {
+	m := regexp.MustCompile(`(?m)^package\s+(\w+)`).FindStringSubmatch(src)
+	if m == nil {
+		return "main"
+	}
+	return m[1]
+}
+
+// patchRand rewrites the top-level functions of math/rand so that they first consult a hook
+// (installed by the replay driver) which returns recorded outcomes.
+func patchRand(src string) string {
+	src = strings.Replace(src, "func Int63() int64 { return globalRand().Int63() }",
+		"// VerifNext, when set, supplies recorded outcomes (kind \"rand.int\" or \"rand.f64\").\nvar VerifNext func(kind string) (int64, float64, bool)\n\nfunc Int63() int64 {\n\tif VerifNext != nil {\n\t\tif v, _, ok := VerifNext(\"rand.int\"); ok {\n\t\t\treturn v\n\t\t}\n\t}\n\treturn globalRand().Int63()\n}", 1)
+	intHook := func(name, sig, conv, call string) {
+		old := "func " + name + sig + " { return globalRand()." + call + " }"
+		neu := "func " + name + sig + " {\n\tif VerifNext != nil {\n\t\tif v, _, ok := VerifNext(\"rand.int\"); ok {\n\t\t\treturn " + conv + "(v)\n\t\t}\n\t}\n\treturn globalRand()." + call + "\n}"
+		src = strings.Replace(src, old, neu, 1)
+	}
+	intHook("Int", "() int", "int", "Int()")
+	intHook("Int63n", "(n int64) int64", "int64", "Int63n(n)")
+	intHook("Int31n", "(n int32) int32", "int32", "Int31n(n)")
+	intHook("Intn", "(n int) int", "int", "Intn(n)")
+	fHook := func(name string) {
+		old := "func " + name + "() float64 { return globalRand()." + name + "() }"
+		neu := "func " + name + "() float64 {\n\tif VerifNext != nil {\n\t\tif _, f, ok := VerifNext(\"rand.f64\"); ok {\n\t\t\treturn f\n\t\t}\n\t}\n\treturn globalRand()." + name + "()\n}"
+		src = strings.Replace(src, old, neu, 1)
+	}
+	fHook("Float64")
+	fHook("NormFloat64")
+	fHook("ExpFloat64")
+	src = strings.Replace(src, "func Perm(n int) []int { return globalRand().Perm(n) }",
+		"func Perm(n int) []int {\n\tif VerifNext != nil {\n\t\tm := make([]int, n)\n\t\tgood := true\n\t\tfor i := range m {\n\t\t\tv, _, ok := VerifNext(\"rand.int\")\n\t\t\tif !ok {\n\t\t\t\tgood = false\n\t\t\t\tbreak\n\t\t\t}\n\t\t\tm[i] = int(v)\n\t\t}\n\t\tif good {\n\t\t\treturn m\n\t\t}\n\t}\n\treturn globalRand().Perm(n)\n}", 1)
+	src = strings.Replace(src, "func Shuffle(n int, swap func(i, j int)) { globalRand().Shuffle(n, swap) }",
+		"func Shuffle(n int, swap func(i, j int)) {\n\tif VerifNext != nil {\n\t\tfor i := n - 1; i > 0; i-- {\n\t\t\tv, _, ok := VerifNext(\"rand.int\")\n\t\t\tif !ok {\n\t\t\t\tpanic(\"verif: rand tape exhausted in Shuffle\")\n\t\t\t}\n\t\t\tswap(i, int(v))\n\t\t}\n\t\treturn\n\t}\n\tglobalRand().Shuffle(n, swap)\n}", 1)
+	return src
+}
+
 type replayResult struct {
 	Outcome  string   `json:"outcome"`
 	Label    string   `json:"label"`
@@ -412,7 +483,9 @@ func (rb *replayBuilder) run(dir, replayFile string, knownKeys []string, watchdo
 	if !ok {
 		return nil, fmt.Errorf("no replay binary for %s: %s", dir, rb.errs[dir])
 	}
-	cmd := exec.Command(bin, "-test.run", "^TestVerifReplay$", "-test.v", "-test.timeout", "120s")
+	// run under an address-space limit so that an out-of-memory class failure shows up as a
+	// fatal error of the test binary instead of exhausting the machine
+	cmd := exec.Command("bash", "-c", "ulimit -v 6000000; exec \"$0\" \"$@\"", bin, "-test.run", "^TestVerifReplay$", "-test.v", "-test.timeout", "120s")
 	cmd.Dir = filepath.Join(*repo, dir)
 	if _, err := os.Stat(cmd.Dir); err != nil {
 		cmd.Dir = *repo
